@@ -101,6 +101,14 @@ def run(ctx: Ctx) -> None:
         e = EL.call("clvl", EL.V(n), EL.V(ovs), EL.V(path), EL.V(-5))
         obs = EL.run_sim(EL.build(e), ctx.rng, context=runctx, config_ctx=cfgctx)
         rcases.append({"id": i + 1, "e": e, "ctx": EL.to_value(cfgctx), "run": EL.to_value(runctx), "obs": obs})
+    # siblings under one parent: same path and default, different overrides (and none)
+    for i in range(ctx.pick(60, 600)):
+        ovs = [None if ctx.rng.random() < 0.3 else {"a": {"b": ctx.rng.randint(1, 9)}} if ctx.rng.random() < 0.7
+               else rand_ctx(ctx.rng) for _ in range(ctx.rng.randint(2, 4))]
+        cfgctx, runctx = rand_ctx(ctx.rng), rand_ctx(ctx.rng)
+        e = EL.call("cfan", EL.V(ovs))
+        obs = EL.run_sim(EL.build(e), ctx.rng, context=runctx, config_ctx=cfgctx)
+        rcases.append({"id": len(rcases) + 1, "e": e, "ctx": EL.to_value(cfgctx), "run": EL.to_value(runctx), "obs": obs})
     bad = copy.deepcopy(next(c for c in rcases if c["obs"]["t"] == "list"))
     bad["id"] = len(rcases) + 1
     bad["obs"]["v"][0] = {"t": "int", "v": 424242}
